@@ -24,7 +24,10 @@ inductive Probe
   | osError (msg : Text)     -- OSError = IOError: missing, a directory, path through a file,
                              -- name too long, permission, dangling or looping symlink …
   | unicodeError (msg : Text) -- UnicodeDecodeError (a ValueError, *not* an OSError)
-  | otherError (name : String) -- any other exception class (e.g. ValueError: embedded null byte)
+  | valueError (msg : Text)  -- any other ValueError: `open()` rejects the *name* itself
+                             -- ("embedded null byte"); caught since 9d2590a
+                             -- (`except (IOError, ValueError)`)
+  | otherError (name : String) -- any other exception class (not an OSError, not a ValueError)
 deriving DecidableEq, Repr
 
 inductive FindResult
@@ -42,6 +45,7 @@ def findLoop (allDirs : List Text) : List (Text × Probe) → List Text → Find
   | (_, .text t) :: _, _ => .found t
   | (_, .osError m) :: rest, errs => findLoop allDirs rest (errs ++ [m])
   | (_, .unicodeError m) :: rest, errs => findLoop allDirs rest (errs ++ [m])
+  | (_, .valueError m) :: rest, errs => findLoop allDirs rest (errs ++ [m])
   | (_, .otherError n) :: _, _ => .raised n
 
 /-- `_find_in_dirs_and_read(import_dirs)(file_name)`, given what opening the file does in
@@ -211,5 +215,37 @@ def mergeLocs (ls : List Loc) : Except Unit (Option Loc) :=
     if posLe a.sl a.sc b.el b.ec then .ok (some ⟨a.sl, a.sc, b.el, b.ec, truthy.any (·.synthetic)⟩)
     else .error ()
   | _, _ => .ok none
+
+/-! ### `module_ir`'s hand-built locations (round 3)
+
+`module_ir` builds 15 locations by hand from the locations of nodes it already has:
+`SourceLocation(a.start, b.end)` (an expression from its first to its last operand, a type
+with its array dimensions, an `external` body from `Indent` to `Dedent`),
+`SourceLocation(op.start, op.start)` (the phantom `0` of a unary minus),
+`SourceLocation(position, position)` (the prelude import),
+`SourceLocation(open.end, close.start)` (the empty `[]` of an automatic dimension).  All of
+them are: one endpoint of a known location, then one endpoint of a known location, through the
+`SourceLocation` constructor with its two assertions. -/
+
+/-- Which endpoint `x.source_location.start` / `x.source_location.end` selects. -/
+inductive End
+  | start
+  | stop
+deriving DecidableEq, Repr
+
+def Loc.pos (l : Loc) : End → Nat × Nat
+  | .start => (l.sl, l.sc)
+  | .stop => (l.el, l.ec)
+
+/-- `parser_types.SourceLocation(start, end)` for two positions: `assert start <= end` and
+`assert (not start and not end) or (start and end)` (`bool(position) = bool(line)`); not
+synthetic. -/
+def mkLoc (p q : Nat × Nat) : Except Unit Loc :=
+  if posLe p.1 p.2 q.1 q.2 && ((p.1 == 0) == (q.1 == 0)) then .ok ⟨p.1, p.2, q.1, q.2, false⟩
+  else .error ()
+
+/-- `SourceLocation(a.<ea>, b.<eb>)`. -/
+def spanLoc (a : Loc) (ea : End) (b : Loc) (eb : End) : Except Unit Loc :=
+  mkLoc (a.pos ea) (b.pos eb)
 
 end Emboss.Pipeline
